@@ -148,7 +148,7 @@ def main():
         "setup_cmd": "./build.sh && ./build.sh race",
         "hooks": {
             "guard": "verif",
-            "enable": "go build -tags verif -overlay /verif/build/overlay.json (overlay adds verifseam/seam.go, internal/sort/zz_verif.go, internal/fastcsv/zz_verif.go; no file in /repo is modified)",
+            "enable": "go build -tags verif -overlay /verif/build/overlay.json (overlay adds the virtual package verifseam/{core,grouper,sort,csv,strings,ryu,doc}.go and internal/sort/zz_verif.go, internal/fastcsv/zz_verif.go; no file in /repo is modified; if a seam file does not compile against the tree under test, build.sh substitutes its stub and the check layers using that seam are skipped with a note in the evidence)",
             "baseline_off_cmd": json.load(open("/root/.vp/BASELINE.json"))["cmd"] if os.path.exists("/root/.vp/BASELINE.json") else BASELINE_CMD,
             "source_commits": [],
             "add_only": True,
